@@ -6,6 +6,7 @@ WRAPPERS = {
     "media": ("@media (min-width: 600px)",),
     "supports": ("@supports (display: grid)",),
     "media_supports": ("@media screen and (max-width: 70em)", "@supports (display: grid)"),
+    "deep3": ("@media screen", "@supports (display: grid)", "@media (min-width: 1px)"),
 }
 
 # custom properties an item may need: name -> (block selector, value)
@@ -17,11 +18,13 @@ PROPS = {
     "--ok": (":root", "#111"),
     "--d": (":root", "#777"),
     "--e": ("html", "#999"),
+    "--ti": (":root", "#777 !important"),
 }
 
 
 class Item:
-    def __init__(self, kind, decls, needs=(), selector=None, note="", extra_blocks=()):
+    def __init__(self, kind, decls, needs=(), selector=None, note="", extra_blocks=(), selector_fmt=None):
+        self.selector_fmt = selector_fmt   # e.g. ".r%d, .x%d > p:hover" (still unique per rule)
         self.extra_blocks = tuple(extra_blocks)   # raw CSS emitted before the rules (e.g. a second definition of a property)
         self.kind = kind
         self.decls = decls          # [(name, value, important)] or raw strings (junk / comments)
@@ -58,6 +61,10 @@ KINDS = {
     # the same custom property defined in :root and in html: by the cascade :root (a pseudo-class) wins whatever the order
     "var_both_root_first": lambda: Item("var_both_root_first", [("color", "var(--d)", False)], needs=("--d",), extra_blocks=("html {\n  --d: #999;\n}\n",)),
     "var_both_html_first": lambda: Item("var_both_html_first", [("color", "var(--e)", False)], needs=("--e",), extra_blocks=(":root {\n  --e: #8a8a8a;\n}\n",)),
+    "var_spaces": lambda: Item("var_spaces", [("color", "var( --t )", False)], needs=("--t",)),
+    "multi_selector": lambda: Item("multi_selector", [("color", "#777", False)], selector_fmt=".r%d, .x%d > p:hover"),
+    "var_bg_and_text": lambda: Item("var_bg_and_text", [("color", "var(--t)", False), ("background-color", "var(--bg)", False)], needs=("--t", "--bg")),
+    "prop_important": lambda: Item("prop_important", [("color", "var(--ti)", False)], needs=("--ti",)),
     "important": lambda: Item("important", [("color", "#777", True)]),
     "repeated": lambda: Item("repeated", [("color", "#000", False), ("margin", "0", False), ("color", "#777", False)]),
     "repeated_after_bg": lambda: Item("repeated_after_bg", [("color", "#333", False), ("background-color", "#fff", False), ("color", "#999", False)]),
@@ -79,7 +86,7 @@ ORDER = list(KINDS)
 
 
 def render_item(item, idx, wrapper="none", indent=""):
-    sel = item.selector or ".r%d" % idx
+    sel = item.selector or ((item.selector_fmt % (idx, idx)) if item.selector_fmt else ".r%d" % idx)
     parts = []
     for d in item.decls:
         if isinstance(d, tuple):
